@@ -355,7 +355,10 @@ CLAIMED["C09"] = (
     "reads back as stored (read_after_set, emu_quantum: less than one centipoint below), None always restores inheritance, refused "
     "exactly outside 0..20116800 EMU / 0..132 lines with every reading unchanged, the three are independent (read_other), the "
     "element left holds exactly one child (slot_wf_after_set), and after ANY history each reads the last accepted value assigned "
-    "to it (run_read); compared with the real paragraphs after every assignment.",
+    "to it (run_read); compared with the real paragraphs after every assignment.  TextFrame.auto_size (Model/Autofit, Props/C09T): "
+    "from ANY autofit children (several, of several kinds, a:normAutofit with fontScale) a member reads back, None restores "
+    "inheritance, a non-member is refused with nothing changed, at most one bare child is left (one_child), and after ANY history "
+    "the reading is the last accepted value (run_read); compared with real text frames after every assignment.",
     "Property table and domains are written by hand from the docstrings (trusted input); couplings documented by the "
     "library are excepted from independence; floats are dyadic rationals in the exact comparison.  Seven enum-alias "
     "findings (shared with C20) are listed.",
